@@ -171,9 +171,13 @@ def main():
                                 bad = f"tile ({lv},{x},{y}) {'exists' if got is not None else 'is missing'} but {'no' if want is None else 'a'} tile is due (children present: {[c is not None for c in cd]})"
                             elif want is not None:
                                 g = got
-                                if g.shape != want.shape or not (np.array_equal(g, want, equal_nan=True) if g.dtype.kind == "f" else np.array_equal(g, want)):
+                                # float means: the code averages in the tile's own precision, the oracle in float64;
+                                # a mean over 3 defined values is not exactly representable, so allow a few ulps
+                                tol = 8 * float(np.finfo(g.dtype).eps) if g.dtype.kind == "f" else 0.0
+                                same = (g.shape == want.shape) and (np.allclose(g, want, rtol=tol, atol=0.0, equal_nan=True) if g.dtype.kind == "f" else np.array_equal(g, want))
+                                if not same:
                                     if g.shape == want.shape:
-                                        ne = ~((g == want) | ((g != g) & (want != want))) if g.dtype.kind == "f" else (g != want)
+                                        ne = ~(np.isclose(g, want, rtol=tol, atol=0.0, equal_nan=True)) if g.dtype.kind == "f" else (g != want)
                                         idx = tuple(int(v) for v in np.argwhere(ne)[0])
                                         bad = f"tile ({lv},{x},{y}) pixel {idx}: got {g[idx]}, the block reduction gives {want[idx]} ({int(ne.sum())} values differ)"
                                     else:
